@@ -96,6 +96,36 @@ def r2_fold(ck, w):
             good = True
     ck.record('C15.R2', 'fold:scale+add', good, 'loop over guards applies scale(r) and add_msm(guard)',
               'batch_verify fold no longer scales and adds every guard', hirq.fn_loc(f))
+    # distinct powers: the scaling inside the loop must accumulate — either the loop-carried accumulator is scaled (Horner), or the factor is a
+    # loop-carried power that the loop updates; scaling the loop variable with a loop-invariant factor gives every member the same coefficient
+    from ..core import peel, pat_bindings
+    distinct = False
+    why = 'no scale call inside a loop'
+    for lp in loops:
+        loop_vars = {b['i'] for b in pat_bindings(lp['pat'])}
+        inside = {id(x) for x in walk(lp['body'])}
+        assigned_in_loop = set()
+        for x in walk(lp['body']):
+            if x.get('k') in ('assign', 'assignop'):
+                l = peel(x['lhs'])
+                if l.get('k') == 'local':
+                    assigned_in_loop.add(l['i'])
+        for m in hirq.calls(lp['body']):
+            if m.get('m') != 'scale' or 'recv' not in m:
+                continue
+            r = peel(m['recv'])
+            while r.get('k') in ('field', 'mcall', 'index'):
+                r = peel(r['recv'] if r.get('k') == 'mcall' else r['e'])
+            recv_carried = r.get('k') == 'local' and r['i'] not in loop_vars and not any(
+                x.get('k') in ('let', 'letx') and id(x) in inside and any(b['i'] == r['i'] for b in pat_bindings(x['pat'])) for x in walk(lp['body']))
+            fac_locals = {x['i'] for a in m.get('args', []) for x in walk(a) if x.get('k') == 'local'}
+            fac_carried = bool(fac_locals & assigned_in_loop)
+            if recv_carried or fac_carried:
+                distinct = True
+            else:
+                why = f'`{short(callee(m) or "scale")}` scales the loop variable with a loop-invariant factor'
+    ck.record('C15.R2', 'fold:distinct-powers', distinct, 'the loop-carried accumulator (or a running power) is scaled: member i gets r^(n-1-i)',
+              f'batch_verify fold: {why}: every member after the first gets the SAME coefficient, so errors of two invalid members can cancel', hirq.fn_loc(f))
     # every success path reaches Guard::verify, except paths through an explicit emptiness test of the guard list
     ver = [i for i, _ in mc.call_blocks(b, lambda c, t: c.endswith('Guard>::verify') or c.endswith('Guard::verify'))]
     empt = []
